@@ -1,12 +1,12 @@
 (* JsPrint/LexBack.v — the bytes the printer model writes lex back to exactly the printer's tokens.
    The printed item list (tokens and single spaces, JsPrint/Print.v) is turned into a C06 item list ([its_of]); where
-   every token is followed by a byte that cannot extend it in the sense of C06's [stop_for] ([flat_ok], a computable
-   check of adjacent items at byte level) the list satisfies [seq_ok], and the C06 theorem
+   every token is followed by bytes that cannot extend it — C06's exact follower condition [stops], as the computable
+   check [flat_ok] of adjacent items at byte level — the list satisfies [seq_exact], and the C06 theorem
    jslex_token_sequences (JsLex/SeqNext.v) gives: the JS lexer model, called with Next once per item, returns exactly
    these tokens and ends at the end of the input.  Composed with the parser-level theorem print_reparses (Proofs.v):
    parse (lex (print t)) = t modulo GroupExpr, and printing that tree gives the same bytes. *)
 From Coq Require Import ZifyBool.
-From Verif Require Import Common.Base Common.Tactics Common.Lx Gen.Tables JsLex.Model JsLex.Proofs JsLex.Relex JsLex.RelexNext JsLex.Exchange JsLex.SeqNext.
+From Verif Require Import Common.Base Common.Tactics Common.Lx Gen.Tables JsLex.Model JsLex.Proofs JsLex.Relex JsLex.RelexNext JsLex.Exchange JsLex.NumExchange JsLex.Stops JsLex.SeqNext.
 From Verif Require Import Gen.PrattTable JsExpr.Syntax JsExpr.Pratt JsExpr.Spec JsPrint.Print JsPrint.Proofs.
 
 (* ---- printed items as C06 items ------------------------------------------------------------------------------------ *)
@@ -44,9 +44,10 @@ Definition usable (cls : tclass) : bool :=
   match cls with KPunct | KIdent | KNum | KString => true | _ => false end.
 
 (* (t, b) is a token of the lexer: lexed on its own it is exactly that token; punctuator, identifier / keyword, numeric or
-   string literal; no multi-byte sequence cut off at its end *)
+   string literal; no multi-byte sequence cut off at its end; it does not begin with a white space rune *)
 Definition real (ids idc zs : Z -> bool) (t : Z) (b : list Z) : Prop :=
-  relexes ids idc zs t b /\ no_trunc b = true /\ exists cls, class_of t = Some cls /\ usable cls = true.
+  relexes ids idc zs t b /\ no_trunc b = true /\ (exists cls, class_of t = Some cls /\ usable cls = true) /\
+  b <> [] /\ forall R, rune_stop (ws_rune zs) (b ++ R).
 
 (* the punctuators and keywords of the fragment, written with their canonical bytes *)
 Definition fixed_types : list Z :=
@@ -87,9 +88,13 @@ Definition odd_items (l : list pitem) : list pitem := filter (fun i => negb (fix
 Definition real_item (ids idc zs : Z -> bool) (i : pitem) : Prop :=
   match i with PTok t b _ => real ids idc zs t b | PSp => True end.
 
+Lemma ascii_no_ws_rune (p : Z -> bool) c b R : c < 192 -> rune_stop p ((c :: b) ++ R).
+Proof. intros H. unfold rune_stop. cbn [app hd]. intros; lia. Qed.
+
 Ltac relex_compute :=
   unfold real, relexes; split; [eexists; split; [vm_compute; reflexivity|vm_compute; split; reflexivity]|];
-  split; [vm_compute; reflexivity|]; eexists; split; vm_compute; reflexivity.
+  split; [vm_compute; reflexivity|]; split; [eexists; split; vm_compute; reflexivity|];
+  split; [vm_compute; discriminate|]; intros ?R; vm_compute tok_bytes; apply ascii_no_ws_rune; lia.
 
 Lemma fixed_real ids idc zs : Forall (fun t => real ids idc zs t (tok_bytes t)) fixed_types.
 Proof. unfold fixed_types. repeat (apply Forall_cons; [relex_compute|]). apply Forall_nil. Qed.
@@ -108,68 +113,90 @@ Proof.
   - inversion H; subst. apply Forall_cons; [assumption|]. apply IH. assumption.
 Qed.
 
-(* ---- the separation check (C06 stop_for, as a boolean on the next byte) ------------------------------------------- *)
+(* ---- the separation check (C06 stops, as a boolean on the bytes that follow) ---------------------------------------- *)
 
-(* the byte after the items of r: the first byte of what follows, or the terminator *)
-Definition nextb (r : list pitem) : Z := hd 0 (items_bytes r ++ [0]).
+(* the bytes after an item: the items of r, then the terminator *)
+Definition restb (r : list pitem) : list Z := items_bytes r ++ [0].
 
-Definition op_stopb (c : Z) : bool :=
-  negb (existsb (Z.eqb c) [61; 43; 45; 42; 38; 124; 63; 60; 62; 46; 33]) && negb ((48 <=? c) && (c <=? 57)).
+Lemma list_eqb_refl a : list_eqb a a = true.
+Proof. induction a as [|x a IH]; [reflexivity|]. cbn [list_eqb]. rewrite Z.eqb_refl, IH. reflexivity. Qed.
 
-Lemma op_stopb_ok c : op_stopb c = true -> op_stop c.
+Definition digitb (c : Z) : bool := (48 <=? c) && (c <=? 57).
+
+Definition punct_stopb (pl : bool) (T R' : list Z) : bool :=
+  let c := hd 0 R' in
+  (negb (longer_punct T R') || (list_eqb T [63] && match R' with x :: d :: _ => (x =? 46) && digitb d | _ => false end))
+  && (negb (list_eqb T [63; 46] || list_eqb T [46]) || negb (digitb c))
+  && (negb (list_eqb T [47]) || (negb (c =? 47) && negb (c =? 42)))
+  && (negb (list_eqb T [60]) || negb (list_eqb (firstz 3 R') [33; 45; 45]))
+  && (negb (list_eqb T [45; 45]) || negb pl || negb (c =? 62)).
+
+Lemma punct_stopb_ok pl T R' : punct_stopb pl T R' = true -> punct_stop pl T R'.
 Proof.
-  unfold op_stopb, op_stop. cbn [existsb]. intros H. apply andb_true_iff in H. destruct H as [H1 H2].
-  apply negb_true_iff in H1. repeat (apply orb_false_iff in H1; destruct H1 as [? H1]).
-  apply negb_true_iff in H2. repeat split; try (apply Z.eqb_neq; assumption). lia.
+  unfold punct_stopb, punct_stop. cbv zeta. intros H.
+  apply andb_true_iff in H. destruct H as [H H5]. apply andb_true_iff in H. destruct H as [H H4].
+  apply andb_true_iff in H. destruct H as [H H3]. apply andb_true_iff in H. destruct H as [H1 H2].
+  repeat split.
+  - apply orb_true_iff in H1. destruct H1 as [H1|H1]; [left; apply negb_true_iff in H1; exact H1|right].
+    apply andb_true_iff in H1. destruct H1 as [E1 E2]. apply list_eqb_eq in E1. split; [exact E1|].
+    destruct R' as [|x [|d rest]]; try discriminate. apply andb_true_iff in E2. destruct E2 as [Ex E2]. apply Z.eqb_eq in Ex. subst x.
+    exists d, rest. split; [reflexivity|]. unfold digitb in E2. lia.
+  - intros HT. assert (E : list_eqb T [63; 46] || list_eqb T [46] = true).
+    { destruct HT as [HT|HT]; subst T; reflexivity. }
+    rewrite E in H2. cbn [negb orb] in H2. apply negb_true_iff in H2. unfold digitb in H2. lia.
+  - subst T. cbn [list_eqb] in H3. cbn in H3. apply andb_true_iff in H3. destruct H3 as [A _]. apply negb_true_iff in A. apply Z.eqb_neq in A. exact A.
+  - subst T. cbn in H3. apply andb_true_iff in H3. destruct H3 as [_ A]. apply negb_true_iff in A. apply Z.eqb_neq in A. exact A.
+  - intros HT E. subst T. rewrite list_eqb_refl in H4. cbn [negb orb] in H4. rewrite E, list_eqb_refl in H4. discriminate.
+  - intros HT Hpl E. subst T pl. rewrite list_eqb_refl in H5. cbn [negb orb] in H5. rewrite E in H5. discriminate.
 Qed.
 
-Definition follow_ok (cls : tclass) (b : list Z) (c : Z) : bool :=
+Definition follow_ok (cls : tclass) (pl : bool) (b R' : list Z) : bool :=
+  let c := hd 0 R' in
   match cls with
-  | KPunct => match b with
-              | [x] => punct1 x || (op_stopb c && negb ((x =? 47) && (c =? 47)))
-              | _ => op_stopb c
-              end
-  | KIdent => negb (tab_cont c) && (c <? 192) && negb (c =? 92)
-  | KWs => negb (c =? 32) && negb (c =? 9) && negb (c =? 11) && negb (c =? 12) && (c <? 192)
-  | KNum => negb (tab_cont c) && negb (c =? 46)
+  | KPunct => punct_stopb pl b R'
+  | KIdent => negb (tab_cont c) && negb (c =? 92) && (c <? 192)
+  | KNum => negb (tab_cont c) && (negb (c =? 46) || negb (is_dec_int b))
   | KString => true
   | _ => false
   end.
 
-Lemma follow_stop cls b R : follow_ok cls b (hd 0 R) = true -> stop_for cls b R.
+Lemma follow_stops idc zs cls pl b R' : follow_ok cls pl b R' = true -> stops idc zs cls pl b R'.
 Proof.
-  unfold follow_ok, stop_for. cbv zeta. set (c := hd 0 R). destruct cls; intros H; try discriminate.
-  - destruct b as [|x [|y b']].
-    + apply op_stopb_ok. exact H.
-    + destruct (punct1 x); [exact I|]. cbn [orb] in H. apply andb_true_iff in H. destruct H as [H1 H2].
-      split; [apply op_stopb_ok; exact H1|]. intros Ex Ec. subst x. rewrite Ec in H2. discriminate.
-    + apply op_stopb_ok. exact H.
+  unfold follow_ok, stops. cbv zeta. destruct cls; intros H; try discriminate.
+  - apply punct_stopb_ok. exact H.
   - apply andb_true_iff in H. destruct H as [H H3]. apply andb_true_iff in H. destruct H as [H1 H2].
-    apply negb_true_iff in H1. apply negb_true_iff in H3. apply Z.eqb_neq in H3. repeat split; [exact H1|lia|exact H3].
-  - apply andb_true_iff in H. destruct H as [H H5]. apply andb_true_iff in H. destruct H as [H H4].
-    apply andb_true_iff in H. destruct H as [H H3]. apply andb_true_iff in H. destruct H as [H1 H2].
-    apply negb_true_iff in H1, H2, H3, H4. apply Z.eqb_neq in H1, H2, H3, H4. repeat split; try assumption. lia.
+    apply negb_true_iff in H1. apply negb_true_iff in H2. apply Z.eqb_neq in H2.
+    split; [exact H1|]. split; [exact H2|]. unfold rune_stop. intros; lia.
   - exact I.
-  - apply andb_true_iff in H. destruct H as [H1 H2]. apply negb_true_iff in H1. apply negb_true_iff in H2.
-    apply Z.eqb_neq in H2. split; assumption.
+  - apply andb_true_iff in H. destruct H as [H1 H2]. apply negb_true_iff in H1. split; [exact H1|].
+    intros E. rewrite E in H2. cbn in H2. apply negb_true_iff in H2. exact H2.
 Qed.
 
 Definition is_ident_class (t : Z) : bool := match class_of t with Some KIdent => true | _ => false end.
 Definition next_ident (r : list pitem) : bool := match r with PTok t _ _ :: _ => is_ident_class t | _ => false end.
 
-(* every item is followed by a byte that cannot extend it; no identifier directly after a numeric literal *)
-Fixpoint flat_ok (l : list pitem) : bool :=
+(* a space is followed by a token that does not start with a space character (that it does not start with a white space
+   rune is part of [real]) *)
+Definition space_ok (r : list pitem) : bool :=
+  match r with
+  | PTok _ (c :: _) _ :: _ => negb (c =? 32) && negb (c =? 9) && negb (c =? 11) && negb (c =? 12)
+  | _ => false
+  end.
+
+(* every item is followed by bytes that cannot extend it; no identifier directly after a numeric literal.
+   pl: prevLineTerminator, true at the start of the input only (the printer writes no line terminator) *)
+Fixpoint flat_ok (pl : bool) (l : list pitem) : bool :=
   match l with
   | [] => true
   | i :: r =>
       match i with
-      | PSp => follow_ok KWs [32] (nextb r)
+      | PSp => space_ok r && flat_ok pl r
       | PTok t b _ =>
           match class_of t with
-          | Some cls => follow_ok cls b (nextb r) && negb (is_num cls && next_ident r)
+          | Some cls => follow_ok cls pl b (restb r) && negb (is_num cls && next_ident r) && flat_ok (plt_after t pl) r
           | None => false
           end
-      end && flat_ok r
+      end
   end.
 
 Lemma step_plain ty cls lev : class_of ty = Some cls -> usable cls = true -> exists lev', step_state ty lev [] = Some (lev', []).
@@ -187,32 +214,42 @@ Proof.
   eauto.
 Qed.
 
-Lemma after_its r : after (its_of r) = items_bytes r ++ [0].
-Proof. unfold after. rewrite texts_its. reflexivity. Qed.
+Lemma after_its r : after (its_of r) = restb r.
+Proof. unfold after, restb. rewrite texts_its. reflexivity. Qed.
 
-Lemma flat_seq ids idc zs l : Forall (real_item ids idc zs) l -> flat_ok l = true ->
-  forall pn pl lev, (pn = true -> next_ident l = false) -> seq_ok ids idc zs pn pl lev [] (its_of l).
+Lemma flat_seq ids idc zs l : Forall (real_item ids idc zs) l ->
+  forall pn pl lev, flat_ok pl l = true -> (pn = true -> next_ident l = false) -> seq_exact ids idc zs pn pl lev [] (its_of l).
 Proof.
-  induction l as [|i r IH]; intros Hr Hf pn pl lev Hpn; [apply sq_nil|].
-  inversion Hr as [|? ? Hi Hr']; subst. cbn [flat_ok] in Hf. apply andb_true_iff in Hf. destruct Hf as [Hf Hfr].
+  induction l as [|i r IH]; intros Hr pn pl lev Hf Hpn; [apply sx_nil|].
+  inversion Hr as [|? ? Hi Hr']; subst. cbn [flat_ok] in Hf.
   destruct i as [t b a|].
-  - destruct Hi as [Hre [Hnt [cls [Hc Hu]]]]. rewrite Hc in Hf. apply andb_true_iff in Hf. destruct Hf as [Hfo Hni].
+  - destruct Hi as [Hre [Hnt [[cls [Hc Hu]] _]]]. rewrite Hc in Hf.
+    apply andb_true_iff in Hf. destruct Hf as [Hf Hfr]. apply andb_true_iff in Hf. destruct Hf as [Hfo Hni].
     destruct (step_plain t cls lev Hc Hu) as [lev' Hst].
     cbn [its_of map it_of]. fold (its_of r).
-    apply (sq_cons ids idc zs pn pl lev [] lev' [] t b (its_of r) cls); try assumption.
+    apply (sx_cons ids idc zs pn pl lev [] lev' [] t b (its_of r) cls); try assumption.
     + destruct cls; try exact I. discriminate.
     + intros Ep E. subst cls. specialize (Hpn Ep). cbn [next_ident] in Hpn. unfold is_ident_class in Hpn. rewrite Hc in Hpn. discriminate.
-    + rewrite after_its. apply follow_stop. exact Hfo.
+    + rewrite after_its. apply follow_stops. exact Hfo.
     + apply IH; try assumption. intros En. rewrite En in Hni. cbn [andb] in Hni. apply negb_true_iff in Hni. exact Hni.
-  - cbn [its_of map it_of]. fold (its_of r).
-    apply (sq_cons ids idc zs pn pl lev [] lev [] WhitespaceToken [32] (its_of r) KWs).
+  - apply andb_true_iff in Hf. destruct Hf as [Hsp Hfr].
+    cbn [its_of map it_of]. fold (its_of r).
+    apply (sx_cons ids idc zs pn pl lev [] lev [] WhitespaceToken [32] (its_of r) KWs).
     + apply space_relexes.
     + reflexivity.
     + exact I.
     + reflexivity.
     + intros _. discriminate.
     + reflexivity.
-    + rewrite after_its. apply follow_stop. exact Hf.
+    + rewrite after_its. cbn [stops]. unfold ws_stop. cbv zeta.
+      destruct r as [|[t2 [|c b2] a2|] r']; try discriminate. cbn [space_ok] in Hsp.
+      unfold restb, items_bytes. cbn [map concat item_bytes app hd].
+      apply andb_true_iff in Hsp. destruct Hsp as [Hsp H4]. apply andb_true_iff in Hsp. destruct Hsp as [Hsp H3].
+      apply andb_true_iff in Hsp. destruct Hsp as [H1 H2].
+      apply negb_true_iff in H1, H2, H3, H4. apply Z.eqb_neq in H1, H2, H3, H4.
+      repeat split; try assumption.
+      inversion Hr' as [|? ? Hi2 _]; subst. destruct Hi2 as [_ [_ [_ [_ Hws]]]].
+      specialize (Hws (concat (map item_bytes r') ++ [0])). cbn [app] in Hws. rewrite <- ?app_assoc. exact Hws.
     + apply IH; try assumption. intros E. discriminate.
 Qed.
 
@@ -221,7 +258,7 @@ Qed.
 Lemma lexed_view_items ids idc zs l : Forall (real_item ids idc zs) l -> lexed_view (map tok_of_item l) = ptoks l.
 Proof.
   induction 1 as [|i l Hi _ IH]; [reflexivity|]. destruct i as [t b a|]; cbn [map tok_of_item lexed_view ptoks].
-  - destruct Hi as [_ [_ [cls [Hc Hu]]]].
+  - destruct Hi as [_ [_ [[cls [Hc Hu]] _]]].
     destruct (t =? WhitespaceToken) eqn:E; [|rewrite IH; reflexivity].
     apply Z.eqb_eq in E. subst t. vm_compute in Hc. inversion Hc; subst. discriminate.
   - exact IH.
@@ -230,14 +267,14 @@ Qed.
 (* every item list whose odd tokens are real and that passes the separation check: Next, called once per item, returns
    exactly the items as tokens and stops at the end of the input; without the whitespace tokens they are [ptoks] *)
 Theorem items_lex_back ids idc zs l :
-  Forall (real_item ids idc zs) (odd_items l) -> flat_ok l = true ->
+  Forall (real_item ids idc zs) (odd_items l) -> flat_ok true l = true ->
   exists s', jrun ids idc zs (map (fun _ => ONext) l) (js_init (items_bytes l)) = Model.Ok (map tok_of_item l, s') /\
     at_end (jcur s') = true /\ lstart (jcur s') = lpos (jcur s') /\
     lexed_view (map tok_of_item l) = ptoks l.
 Proof.
   intros Ho Hf. pose proof (all_real _ _ _ _ Ho) as Hr.
-  assert (Hs : seq_ok ids idc zs false true 0 [] (its_of l)) by (apply flat_seq; auto; discriminate).
-  destruct (jslex_token_sequences_partial_proof ids idc zs _ Hs) as [s' [Hrun [He Hst]]].
+  assert (Hs : seq_exact ids idc zs false true 0 [] (its_of l)) by (apply flat_seq; auto; discriminate).
+  destruct (jslex_token_sequences_proof ids idc zs _ Hs) as [s' [Hrun [He Hst]]].
   rewrite ops_its, texts_its, toks_its in Hrun. exists s'. repeat split; try assumption.
   eapply lexed_view_items; eauto.
 Qed.
@@ -245,7 +282,7 @@ Qed.
 (* ---- the round trip of the fragment: print, lex, parse ------------------------------------------------------------- *)
 
 (* the separation check on the output for t, and its odd tokens *)
-Definition c06_separated (t : expr) : bool := flat_ok (pitems t).
+Definition c06_separated (t : expr) : bool := flat_ok true (pitems t).
 Definition leaf_tokens_real (ids idc zs : Z -> bool) (t : expr) : Prop := Forall (real_item ids idc zs) (odd_items (pitems t)).
 
 Theorem print_lex_parse_proof :
@@ -281,14 +318,23 @@ Example separated_examples :
   c06_separated (EIndex (ECall (lb_id 102) [lb_id 97; ELit tt_StringToken [39; 120; 39]]) lb_num) = true.
 Proof. repeat split; vm_compute; reflexivity. Qed.
 
-(* `-1`, `!-a`, `!!a`, `0x1F.a` (a non-decimal literal before '.'), `a + é` (a non-ASCII rune after a space) do not:
-   C06's stop_for has no case for them *)
+(* `-1`, `-.5`, `!-a`, `!!a`, `+++a`, `a++++`, `0x1F.a`, `a + é`: the exact follower condition of C06 covers them *)
+Example separated_examples_exact :
+  c06_separated (EUnary tt_NegToken lb_num) = true /\
+  c06_separated (EUnary tt_NegToken (ELit tt_DecimalToken [46; 53])) = true /\
+  c06_separated (EUnary tt_NotToken (EUnary tt_NegToken (lb_id 97))) = true /\
+  c06_separated (EUnary tt_NotToken (EUnary tt_NotToken (lb_id 97))) = true /\
+  c06_separated (EUnary tt_PreIncrToken (EUnary tt_PosToken (lb_id 97))) = true /\
+  c06_separated (EUnary tt_PostIncrToken (EUnary tt_PostIncrToken (lb_id 97))) = true /\
+  c06_separated (EDot (ELit tt_HexadecimalToken [48; 120; 49; 70]) [97]) = true /\
+  c06_separated (EBinary tt_AddToken (lb_id 97) (EVar [195; 169])) = true.
+Proof. repeat split; vm_compute; reflexivity. Qed.
+
+(* what the check still refuses are leaves that are no tokens: a "hexadecimal" literal spelled `1` before '.', a name
+   that begins with a space *)
 Example not_separated_examples :
-  c06_separated (EUnary tt_NegToken lb_num) = false /\
-  c06_separated (EUnary tt_NotToken (EUnary tt_NegToken (lb_id 97))) = false /\
-  c06_separated (EUnary tt_NotToken (EUnary tt_NotToken (lb_id 97))) = false /\
-  c06_separated (EDot (ELit tt_HexadecimalToken [48; 120; 49; 70]) [97]) = false /\
-  c06_separated (EBinary tt_AddToken (lb_id 97) (EVar [195; 169])) = false.
+  c06_separated (EDot (ELit tt_HexadecimalToken [49]) [97]) = false /\
+  c06_separated (EBinary tt_AddToken (lb_id 97) (EVar [32; 97])) = false.
 Proof. repeat split; vm_compute; reflexivity. Qed.
 
 (* ---- non-vacuity: `a + b * (c, 1)['k'].d++` ----------------------------------------------------------------------------- *)
